@@ -335,14 +335,14 @@ partial def specConst (v : Node) : Bool :=
   | .mk .null _ _ => true
   | .mk .bigint _ _ => true
   | .mk .regex _ _ => true
-  | .mk .ident ("undefined" :: _) _ => true
+  | .mk .ident ("undefined" :: b :: _) _ => b == "u"        -- the GLOBAL `undefined`; a local binding of that name can be anything
   | .mk (.other "cat") _ parts => parts.all specConst
   | .mk .array _ [.mk .list _ elems] => elems.all fun e => match e with | .mk .arg _ [x] => specConst x | _ => false
   | .mk .object _ [.mk .list _ props] => props.all fun p =>
       match p with
       | .mk .kv _ [.mk .computed _ _, _] => false
       | .mk .kv _ [_, x] => specConst x
-      | .mk .ident ("undefined" :: _) _ => true
+      | .mk .ident ("undefined" :: b :: _) _ => b == "u"
       | _ => false
   | _ => false
 
